@@ -15,3 +15,12 @@ def read_block_obls(prefix, quick=(0, 1, 3), thorough=(6, 9)):
                            desc="real ldb_read_block over a symbolic file: accepted with verification => stored checksum == mask(F(payload||type)); short read/IO error/bad type/size overflow -> status; result bytes == payload; buffer freed on every path",
                            bounds="payload %d bytes (all values), symbolic trailer, offset, options, short reads and errors; abstract checksum F; Snappy replaced by its contract" % n))
     return out
+
+
+def who_verifies_obls(prefix):
+    return [Obl("%s.table-open-who-verifies" % prefix, "C11/who_verifies.c",
+                real=["util/options.c", "util/comparator.c", "util/slice.c", "util/buffer.c"], include_real=["table/table.c"],
+                kit=["vp_nondet.c", "vp_mem.c", "vp_alloc.c"], unwind=6, unwindset={"ldb_realloc.0": 25},
+                timeout=600, functions=["ldb_table_open", "ldb_table_read_meta", "ldb_table_read_filter"],
+                desc="real ldb_table_open/read_meta/read_filter: with paranoid_checks every block read while opening (index, metaindex, filter) asks for checksum verification",
+                bounds="all option/result combinations of one table open; callees are recorders")]
